@@ -182,6 +182,9 @@ func (e *Enc) call(x *ssa.Call) {
 		e.sinkCall(x, cc)
 		return
 	}
+	if e.pureExternal(x, cc) {
+		return
+	}
 	e.r.errorf("unmodelled callee: %s (called from %s)", cc.name, e.fn.Name())
 	e.sinkCall(x, cc)
 }
@@ -842,3 +845,50 @@ func reachesAfter(p ssa.Instruction, u ssa.Instruction, stop *ssa.BasicBlock) bo
 }
 
 func isRepoPath(p string) bool { return p == repoMod || strings.HasPrefix(p, repoMod+"/") }
+
+var purePkgs = []string{"strconv.", "strings.", "github.com/satori/go.uuid.", "(github.com/satori/go.uuid.UUID).", "encoding/hex.", "encoding/base64.", "(*encoding/base64.Encoding).",
+	"unicode.", "unicode/utf8.", "bytes.", "path.", "sort.Search", "github.com/dvsekhvalnov/jose2go/base64url.", "crypto/sha256.", "github.com/ipfs/go-cid.", "(github.com/ipfs/go-cid.Cid).",
+	"github.com/multiformats/go-multiaddr.", "regexp.MatchString", "encoding/json.Marshal", "github.com/SaoNetwork/sao-did/parser.", "github.com/SaoNetwork/sao-did/util."}
+
+// pureExternal: library functions that are deterministic functions of their arguments (no chain state, no clock) are
+// modelled as uninterpreted functions: same arguments, same results; nothing else is assumed about them.
+func (e *Enc) pureExternal(x ssa.Value, cc *callCtx) bool {
+	ok := false
+	for _, p := range purePkgs {
+		if strings.HasPrefix(cc.name, p) {
+			ok = true
+		}
+	}
+	if !ok {
+		return false
+	}
+	g := e.g()
+	var as, sorts []string
+	for i, a := range cc.args {
+		srt := g.SortOf(a.Type())
+		if _, isPtr := types.Unalias(a.Type()).Underlying().(*types.Pointer); isPtr {
+			return false // mutation through pointers is not modelled
+		}
+		as = append(as, cc.arg(i))
+		sorts = append(sorts, srt)
+	}
+	var res []string
+	for i := 0; i < cc.sig.Results().Len(); i++ {
+		rt := cc.sig.Results().At(i).Type()
+		rs := g.SortOf(rt)
+		fn := fmt.Sprintf("uf_%s_%d", mangle(cc.name), i)
+		g.DeclFun(fn, sorts, rs)
+		var t string
+		if len(as) == 0 {
+			t = fn
+		} else {
+			t = fmt.Sprintf("(%s %s)", fn, strings.Join(as, " "))
+		}
+		t = e.r.def(e.pfx+"pure", rs, t)
+		e.typeInv(t, rt, 0)
+		res = append(res, t)
+	}
+	g.usedExt["pure-function:"+cc.name] = true
+	e.setResults(x, cc.sig, res)
+	return true
+}
